@@ -398,3 +398,25 @@ class CFG:
         """True iff every path start→target contains a node of `via` (vacuously true if
         target is unreachable from start)."""
         return target not in self.reachable_from(start, avoid=via)
+
+
+def assigned_on_every_path(fn: ast.AST, is_target) -> tuple[bool, list[int], "CFG"]:
+    """Does every path from the entry of fn to its NORMAL exit pass a statement that assigns a target for which
+    is_target(target expression) holds?  Returns (verdict, CFG node ids of the assigning statements, the CFG)."""
+    cfg = CFG(fn)
+    via = []
+    for n in cfg.nodes:
+        st = getattr(n, "stmt", None)
+        if n.kind != "stmt" or st is None:
+            continue
+        tgts = []
+        if isinstance(st, ast.Assign):
+            tgts = st.targets
+        elif isinstance(st, (ast.AugAssign, ast.AnnAssign)) and getattr(st, "value", None) is not None:
+            tgts = [st.target]
+        flat = []
+        for t in tgts:
+            flat += list(t.elts) if isinstance(t, (ast.Tuple, ast.List)) else [t]
+        if any(is_target(t) for t in flat):
+            via.append(n.id)
+    return (bool(via) and cfg.all_paths_pass_through(cfg.entry, cfg.exit, via)), via, cfg
